@@ -180,6 +180,29 @@ def _pcb_post(S_):
 
 c.exit_check(lambda S_, kind: [("top-context-processed-iff-matching", "LOG", _pcb_post(S_), ["C15"])]
              if kind == "return" else [])
+
+
+def _pcb_stack_after(S_, kind):
+    """'completed exactly once': a context whose completion was started - whether it finished or failed half way - is no
+    longer pending (it must not be completed a second time); one that is not at its location stays where it was, and
+    nothing below the top is touched."""
+    h, n = S_.old, S_.new
+    th = S_.a.self
+    st, top = _pcb_top(S_)
+    n0 = h.llen(st)
+    procs = S_.calls("CallbackContext.process")
+    j = z3.Int("j!pcb")
+    below_same = z3.ForAll([j], Implies(And(j >= 0, j < n0 - 1), n.lget(st, j) == h.lget(st, j)))
+    removed = If(n0 == 1, Not(cb_is_set(n, th)), And(cb_is_set(n, th), cb_stack(n, th) == st, n.llen(st) == n0 - 1, below_same))
+    kept = And(cb_is_set(n, th), cb_stack(n, th) == st, n.llen(st) == n0, n.lget(st, n0 - 1) == top, below_same)
+    if procs:
+        return [("started-completion-is-never-left-pending", "POST", removed, ["C15"])]
+    if kind == "return":
+        return [("context-not-at-its-location-stays-pending", "POST", kept, ["C15"])]
+    return []
+
+
+c.exit_check(_pcb_stack_after)
 # C01 INV: on every exit (also when a callback raised) the store is left consistent for the next event
 c.ens("store-invariant-kept", lambda S_: store_inv(S_.new, S_.a.self, S_), props=["C01", "C15"])
 c.sig("BaseException", "a-callback-failed", post=lambda S_: store_inv(S_.new, S_.a.self, S_), props=["C01"])
